@@ -365,6 +365,21 @@ def run_xmlnames(chk, F, G, K, rid="R-XMLNAMES"):
     if len(masks) != 1 or masks[0] is None:
         raise AnalysisBroken("XMLReader::readText: expected one is_keyword(text, <syntax mask>) call")
     mask = masks[0]
+    # words the test lets through although they are keywords: the condition that accepts the name is a disjunction
+    # `!is_keyword(..) || <exception>(id)` whose second part is a file-local predicate comparing the word with string
+    # literals (or such comparisons written out)
+    excepted = set()
+    from ..inline import strip as _strip
+    for n in walk(fn["body"]):
+        if n.get("k") == "if" and any(c.get("name") == "is_keyword" for c in calls(n["c"])):
+            c0 = _strip(n["c"])
+            if isinstance(c0, dict) and c0.get("k") == "bin" and c0.get("op") == "||":
+                lits = [x for x in walk(c0) if x.get("k") == "str"]
+                for c in calls(c0):
+                    for t in F.fns(c.get("fn") or ""):
+                        if t.get("body") is not None and not t.get("cls") and (t.get("file") or "").endswith("xmlreader.cpp"):
+                            lits += [x for x in walk(t["body"]) if x.get("k") == "str"]
+                excepted |= {x.get("v") for x in lits if isinstance(x.get("v"), str)}
     vals = {v["name"]: v["v"] for v in F.enum("syntax_t")["values"]}
     nti = {r.rhs[0] for r in G.by_lhs.get("NonTypeId", []) if len(r.rhs) == 1}
     n = 0
@@ -375,7 +390,7 @@ def run_xmlnames(chk, F, G, K, rid="R-XMLNAMES"):
         for s_ in syn:
             m |= vals.get(s_, 0)
         n += 1
-        chk.ob(rid, w, (m & mask) == 0,
+        chk.ob(rid, w, (m & mask) == 0 or w in excepted,
                "the grammar accepts `%s` as a name (NonTypeId -> %s), XTA `state %s;` and `int %s;` are accepted, but the "
                "XML reader rejects <name>%s</name> with $Keywords_are_not_allowed_here (is_keyword(.., mask %d) with "
                "keyword syntax %s): renaming a location or template to it changes the verdict of the XML model" %
